@@ -479,7 +479,8 @@ impl TargetActorHelper {
         final(self).same_static(old(self)),
         final(self).unavailable_dependencies == old(self).unavailable_dependencies,
         final(self).requesters == old(self).requesters,
-        /*[C07.no-retry]*/ final(self).to_execute == old(self).to_execute,
+        /*[C07.no-retry]*/ final(self).to_execute ==> old(self).to_execute,
+        /*[C06.keep-pending]*/ old(self).to_execute ==> final(self).to_execute,
         /*[C07.no-ack-on-failure,C05.no-ack]*/ !final(self).executed,
         /*[C07.no-ack-on-failure,C05.no-ack]*/ *final(tr) == old(tr).sent(TargetActorOutputMessage::TargetExecutionError(old(self).target_id, e)),
 //@end
@@ -553,7 +554,7 @@ impl TargetActorHelper {
         final(self).wf(), final(self).same_static(old(self)),
         final(self).unavailable_dependencies == old(self).unavailable_dependencies,
         final(self).requesters == old(self).requesters,
-        final(self).to_execute == old(self).to_execute,
+        /*[C06.keep-pending]*/ final(self).to_execute == old(self).to_execute,
         /*[C06.no-stale-ack,C01.ok-build]*/ final(self).executed == !old(self).to_execute,
         /*[C06.no-stale-ack,C01.ok-build]*/ old(self).to_execute ==> *final(tr) == *old(tr),
         /*[C04.ack]*/ !old(self).to_execute ==> bcast_word(*old(tr), *final(tr), old(self).req(kind), kind, Word::Ok { actual: true, dep_actual: actual_of(old(tr).inlog, kind).len() > 0 }),
@@ -581,7 +582,7 @@ impl TargetActorHelper {
     ensures
         final(self).wf(), final(self).same_static(old(self)),
         final(self).unavailable_dependencies == old(self).unavailable_dependencies,
-        final(self).to_execute == old(self).to_execute, final(self).executed == old(self).executed,
+        /*[C06.keep-pending]*/ final(self).to_execute == old(self).to_execute, final(self).executed == old(self).executed,
         final(self).req(kind) == old(self).req(kind).remove(requester),
         forall|k: ExecutionKind| k != kind ==> final(self).req(k) == old(self).req(k),
         r == (old(self).req(kind).contains(requester) && final(self).req(kind).len() == 0),
@@ -741,7 +742,7 @@ impl BuildTargetActor {
         let ghost t0 = self.target;
 //@loop 0
             invariant_except_break
-                /*[C10.cancel-on-term]*/ termination_event_received ==> ongoing_build_fuse.running() && tr.cancels_sent > 0,
+                /*[C10.cancel-on-term]*/ tr.term_seen ==> ongoing_build_fuse.running() && tr.cancels_sent > 0,
             invariant
                 self.helper.wf(), self.helper.same_static(&h0), self.target == t0,
                 /*[C01.identity]*/ self.helper.target_id == tr.me && tr.ids_ok,
@@ -752,7 +753,7 @@ impl BuildTargetActor {
                 /*[C04.ack,C01.ok-build]*/ ack_inv(&self.helper, *tr, ExecutionKind::Build, self.helper.executed),
                 /*[C11.build-false]*/ only_ok_actual(*tr, ExecutionKind::Service, false),
                 /*[C11.build-true]*/ oks_actual(*tr, ExecutionKind::Build, true),
-                termination_event_received ==> tr.term_seen,
+                termination_event_received == tr.term_seen,
                 /*[C04.no-unrequest]*/ tr.sent_unreq ==> nonempty(tr.unreq),
                 /*[C08.no-inval-oneshot]*/ tr.sent_inval ==> count_inval(tr.inlog) > 0,
                 /*[C04.request-deps]*/ self.helper.req(ExecutionKind::Build).len() > 0 ==> deps_requested(&self.helper, *tr, ExecutionKind::Build) && deps_requested(&self.helper, *tr, ExecutionKind::Service),
